@@ -576,10 +576,16 @@ class CompilerPassGenerateCode(CompilerPass):
                 )
                 if can_assign_directly:
                     if isinstance(value, IC10Register):
-                        # the shared register stays in use as long as the new name is
-                        value.nodes_alias.extend(
-                            sym_data.nodes_reading + sym_data.nodes_writing
-                        )
+                        # the shared register stays in use as long as the new name
+                        # is; the value may itself stand for another one (z = x = y)
+                        owner = value
+                        while owner.alias_of is not None:
+                            owner = owner.alias_of
+                        if owner is not sym_data:
+                            owner.nodes_alias.extend(
+                                sym_data.nodes_reading + sym_data.nodes_writing
+                            )
+                            sym_data.alias_of = owner
                     sym_data.code_expr = (
                         value.code_expr
                         if isinstance(value, IC10Register)
